@@ -1,6 +1,7 @@
 CONSTANTS
   Tier = "t"
   Unguarded = {}
+  EveryRoleTrusted = FALSE
 INIT Init
 NEXT Next
 INVARIANTS
